@@ -453,6 +453,13 @@ func c12CheckDist(c c12DistCase) (v vcase.Verdict) {
 			// around x times the density: |F(x±ulp) − F(x)| ≤ f_max·ulp(x),
 			// f_max = 0.4/σ. That term matters only for |μ| ≫ σ.
 			tol := 1e-9
+			if iv.name == "closed" {
+				// The closed form is a rational approximation (relative error about 1e-9)
+				// followed by one refinement step, which is there to remove that error: a
+				// tenth of it, relative to the smaller tail, tells a working refinement from a
+				// broken one. (Plus a few units of round-off of the distribution function.)
+				tol = 1e-10*math.Min(p, 1-p) + 1e-15
+			}
 			if c.Kind == "normal" && c12Finite(x) {
 				tol += 0.4 * c12Ulp(x) / c.Sigma
 			}
